@@ -86,6 +86,10 @@ class SimWorld:
         self.invocations = []          # dicts, one per optimize() call
         self.alarm_deadline = None
         self.alarm_handler = None
+        # HiGHS keeps one task scheduler per process, started with the thread count of the first solve; a later solve that
+        # asks for another count is refused (run() returns an error, the model status stays kNotset) until
+        # Highs.resetGlobalScheduler() is called.  The native solves here always use one thread; this models the real thing.
+        self.sched_threads = None
         self.alarms_fired = 0
         self._id_map = {}
         self._id_keep = []
@@ -302,6 +306,7 @@ def make_simhighs(base):
         def __init__(self):
             super().__init__()
             self._sim_time_limit = float("inf")
+            self._sim_threads = None
             self._d = None     # delivered reply: dict(status=name, obj=float, values=list)
             base.setOptionValue(self, "threads", 1)
             # native_seed / native_presolve: used only by the solver-truthfulness cross-check
@@ -325,6 +330,10 @@ def make_simhighs(base):
                 current().history.add("set_time_limit", v=v)
                 return highspy.HighsStatus.kOk
             if name == "threads":
+                try:
+                    self._sim_threads = int(value)
+                except Exception:
+                    return highspy.HighsStatus.kError
                 return highspy.HighsStatus.kOk
             if name == "presolve" and current().cfg.get("native_presolve"):
                 return base.setOptionValue(self, name, current().cfg["native_presolve"])
@@ -391,6 +400,18 @@ def make_simhighs(base):
                 rec["delivered"] = "kOptimal"
                 w.history.add("invoke", j=j, owner=owner, k=owner_k, delivered="kOptimal", stub=True)
                 return highspy.HighsStatus.kOk
+
+            # ---- the process-wide scheduler (see SimWorld.sched_threads) -----------
+            if self._sim_threads:
+                if w.sched_threads is None:
+                    w.sched_threads = self._sim_threads
+                elif w.sched_threads != self._sim_threads:
+                    w.probes["scheduler_thread_count_refused"] += 1
+                    rec["delivered"] = "kNotset"
+                    rec["refused"] = "threads=%d, scheduler runs with %d" % (self._sim_threads, w.sched_threads)
+                    self._d = {"status": "kNotset", "obj": 0.0, "values": []}
+                    w.history.add("invoke", j=j, owner=owner, k=owner_k, aux=aux, delivered="kNotset", refused=rec["refused"])
+                    return highspy.HighsStatus.kError
 
             # ---- native solve (real HiGHS) --------------------------------
             restore = None
@@ -637,6 +658,15 @@ def install():
     _REAL["HighsCustom"] = sw.HighsCustom
     sw.signal = SimSignal
     sw.HighsCustom = make_simhighs(sw.HighsCustom)
+    _real_reset = highspy.Highs.resetGlobalScheduler
+
+    def _sim_reset_scheduler(blocking=True):
+        w = _CURRENT
+        if w is not None:
+            w.sched_threads = None
+            w.history.add("reset_global_scheduler")
+        return _real_reset(blocking)
+    highspy.Highs.resetGlobalScheduler = staticmethod(_sim_reset_scheduler)
     import concurrent.futures as cf
     import threading
     _REAL["ThreadPoolExecutor"] = cf.ThreadPoolExecutor
